@@ -253,9 +253,22 @@ def run_harness(build_dir, mode, lines, timeout=600):
     while i < len(lines):
         p = subprocess.run([harness_path(build_dir, 'wirecase'), mode], input='\n'.join(lines[i:]) + '\n',
                            stdout=subprocess.PIPE, stderr=subprocess.PIPE, env=env, text=True, timeout=timeout)
-        got = [json.loads(x) for x in p.stdout.splitlines() if x.startswith('{')]
+        got, garbled = [], None
+        for x in p.stdout.splitlines():
+            if not x.startswith('{'):
+                continue
+            try:
+                got.append(json.loads(x))
+            except ValueError:
+                garbled = x          # the library handed back something the harness could not even print (e.g. garbage strings)
+                break
         out += got
         i += len(got)
+        if garbled is not None and i < len(lines):
+            crashes.append((i, 'unparsable harness output (garbled values read back): ' + garbled[:600]))
+            out.append(None)
+            i += 1
+            continue
         if i < len(lines) and p.returncode != 0:
             # the harness died on lines[i]: sanitizer report / assertion / abort
             crashes.append((i, p.stderr[-3000:]))
